@@ -208,7 +208,7 @@ fn c14_pending_distribution_matches_reference_u32() {
     w32::pending_amount();
 }
 
-//@ prop=C14 tier=thorough kind=hold
+//@ prop=C14 tier=experimental kind=hold
 //@ enc=DistributePositionImpact::execute, PositionImpactMarketExt::pending_position_impact_pool_distribution_amount
 //@ bound=width-reduced T=u32, DECIMALS=4: one execution, every u32 value, every u64 elapsed time
 //@ stubs=market environment = plain-struct VMarket
